@@ -8,3 +8,7 @@ export CARGO_NET_OFFLINE=true
 ( cd sim && cargo build --release --offline 2>&1 | tail -3 )
 # loom models (the crate's own test target under --cfg loom --cfg penguin_rs_verif)
 ( cd /repo && RUSTFLAGS="--cfg loom --cfg penguin_rs_verif" CARGO_TARGET_DIR="$HERE/loom-target" cargo test -p penguin-mux --lib --release --offline --no-run 2>&1 | tail -2 )
+# the same models with `loom` resolved to the shuttle shim (shadow manifest of penguin-mux)
+python3 shuttle/gen_shadow_mux.py
+cp /repo/Cargo.lock shuttle/muxshadow/Cargo.lock; cp /repo/Cargo.lock shuttle/muxshadow/Cargo.lock.src
+( cd shuttle/muxshadow && cargo test --lib --release --offline --no-run 2>&1 | tail -2 )
